@@ -26,6 +26,9 @@ class Deadlock(Exception):
     pass
 
 
+LOCK_WAIT_S = 0.5
+
+
 class CoopLock:
     def __init__(self):
         self._real = _RealLock()
@@ -35,6 +38,12 @@ class CoopLock:
         s = _current
         me = s.me() if s is not None else None
         if me is None:
+            if blocking and timeout is not None and timeout < 0:
+                # outside a scheduled run nobody else is running: a lock that is not free now was left behind
+                # by a call that has ended, and will never be released
+                if self._real.acquire(True, LOCK_WAIT_S):
+                    return True
+                raise Deadlock("a lock is still held although no thread is running (left behind by an earlier call)")
             return self._real.acquire(blocking, timeout)
         while True:
             if self._real.acquire(False):
